@@ -448,6 +448,9 @@ class Gen:
             body = ['(', r.choice(INTS + self.nums()), r.choice(['+', '-', '*', '<<', '|', '&']), r.choice(INTS[:8]), ')']
         else:
             body = self.call(name=r.choice(list(self.numfun)))
+            if not allowed('macro-cycles'):
+                # no self-reference through an argument either (same finding: a painted name passed on as an argument)
+                body = [('7' if t == name else t) for t in body]
         self.cur = None
         return self._define_line(name, None, body)
 
